@@ -559,6 +559,34 @@ func init() {
 			done += len(batch)
 		}
 		fmt.Printf("mutations: %d (document size histogram, 250-byte buckets: %v)\n", done, sizes)
+
+		// (d) rule subsets and orders (C18 on both sides): random sub-lists / permutations of all 30
+		// modelled rule names on fresh mutants
+		allNames := append(strings.Split(NonOverlapRules, ","), "FieldsOnCorrectTypeWithoutSuggestions", "KnownArgumentNamesWithoutSuggestions", "KnownTypeNamesWithoutSuggestions", "ValuesOfCorrectTypeWithoutSuggestions")
+		subsetRuns := c.Pick(40, 200)
+		for k := 0; k < subsetRuns; k++ {
+			perm := append([]string{}, allNames...)
+			for i := len(perm) - 1; i > 0; i-- {
+				j := c.R.Intn(i + 1)
+				perm[i], perm[j] = perm[j], perm[i]
+			}
+			n := 1 + c.R.Intn(len(perm))
+			if k%4 == 0 {
+				n = 1
+			}
+			var batch [][2]string
+			for len(batch) < 500 {
+				sd := seeds[c.R.Intn(len(seeds))]
+				doc := sd.docs[c.R.Intn(len(sd.docs))]
+				out, ok := MutateDoc(c.R, doc, sd.pool, c.R.Intn(3))
+				if !ok || len(out) > 2500 {
+					continue
+				}
+				batch = append(batch, [2]string{sd.schema, out})
+			}
+			c.corrValidate(batch, strings.Join(perm[:n], ","), st)
+		}
+		fmt.Printf("rule subset/order runs: %d × 500 pairs\n", subsetRuns)
 		st.Print()
 		c.Ev.Evals = st.Cases
 		c.Ev.Extra["validate_per_rule_errors"] = st.PerRule
